@@ -26,11 +26,7 @@ def run(cx):
     cx.consulted(pm)
     cx.consulted(em)
     cx.explanation = (
-        "routing of top-level statements in parse() (who may extend loop_body / setup_body, with which scope arguments), recursion "
-        "discipline of loop_depth/main_loop on every recursive parser call, dominance of the break guards, order and multiplicity "
-        "of the injected housekeeping, global-scope decision; configure-before-use is decided on sketches extracted by partial "
-        "evaluation for every device kind declared before the loop and (hoisted kinds) at the top of it, also behind injected "
-        "polls/ticks; one mode per pin.  Variable lifetime across passes for names first assigned inside branches is not decided."
+        'scripts through parse() (partial evaluation): where marked statements land (setup/loop/functions), which break placements are refused, housekeeping order; C++ scoping of the IR (sa/irscope.py) on a script corpus; prologue values; configure-before-use decided on sketches extracted by partial evaluation for every device kind declared before the loop, at the top of it, behind injected polls, re-bound to other pins, six in a row; one mode per pin; block extents by exhaustive evaluation (shared with C07). Lifetime of variables first assigned inside branches of the main loop is not decided.'
     )
     cls, fields = pe.ir_classes()
     pf = pm.func("parse")
